@@ -162,14 +162,22 @@ def ref_call(dag, own, kind, w, node, v, memo):
     return ("w", mid, [ref_call(dag, own, kind, w, target, e, memo) for e in v])
 
 
-def build(dag, w, kind, leaves, fault=None):
+def make_fn(kind, t, mid, log, ov):
+    if t == "list":
+        fn = _G["walker_" + kind](mid, log)
+    else:
+        fn = _G["leaf_" + t](mid, log)
+    return fn
+
+
+def build(dag, w, kind, leaves, fault=None, late=None, link=False):
     n = len(dag)
     log = []
     nodes = []
     own = mids(n, w, kind, leaves)
     build.bad = None
     for i in range(n):
-        ov = Ovld(mixins=[nodes[p] for p in dag[i]]) if dag[i] else Ovld()
+        ov = Ovld(mixins=[nodes[p] for p in dag[i]], linkback=link) if dag[i] else Ovld()
         nodes.append(ov)
         if fault == i:
             # an invalid method registered before the node's own methods: its build fails after the
@@ -177,10 +185,9 @@ def build(dag, w, kind, leaves, fault=None):
             build.bad = _G["bad_method"](999, log)
             ov.register(build.bad)
         for t, mid in own[i].items():
-            if t == "list":
-                fn = _G["walker_" + kind](mid, log)
-            else:
-                fn = _G["leaf_" + t](mid, log)
+            if late is not None and (i, t) == tuple(late):
+                continue  # registered after the first uses, see check()
+            fn = make_fn(kind, t, mid, log, ov)
             ov.register(fn)
             if t == "list" and kind in ("self", "selfname"):
                 fn.setme(ov.dispatch)
@@ -194,8 +201,8 @@ def run(nodes, log, node, v):
     return (out[0], out[2] if out[0] == "ret" else None)
 
 
-def check(dag, w, kind, leaves, order, acc, fault=None):
-    nodes, log, own = build(dag, w, kind, leaves, fault)
+def check(dag, w, kind, leaves, order, acc, fault=None, late=None, link=False):
+    nodes, log, own = build(dag, w, kind, leaves, fault, late, link)
     found = []
     # first use of the nodes in the given order
     for node in order:
@@ -206,6 +213,11 @@ def check(dag, w, kind, leaves, order, acc, fault=None):
                 acc.h("failed_first_use", r[0])
             nodes[node].unregister(build.bad)
             run(nodes, log, node, INPUTS[0][1])
+    if late is not None:
+        # a plain (never rewritten) leaf method arrives after every function was used: the walkers, adapted
+        # long ago, must see it (through linked parents too)
+        i, t = late
+        nodes[i].register(make_fn(kind, t, own[i][t], log, nodes[i]))
     memo = {}
     for node in range(len(dag)):
         for vn, v in INPUTS:
@@ -225,7 +237,8 @@ def check(dag, w, kind, leaves, order, acc, fault=None):
                 detail = {"node": node, "input": vn, "expected": repr(exp[1]), "got": repr(got[1])}
                 if acc is not None:
                     acc.violation({"dag": [list(d) for d in dag], "walker": [w, kind], "leaves": [list(l) for l in leaves],
-                                   "order": list(order), "node": node, "input": vn, "fault": fault}, disc, detail)
+                                   "order": list(order), "node": node, "input": vn, "fault": fault,
+                                   "late": list(late) if late else None, "link": link}, disc, detail)
                 else:
                     found.append((disc, detail))
     return found
@@ -240,20 +253,32 @@ def cases(tier):
                 if n == 4:
                     orders = [o for o in orders if o[0] in (0, 3)] if tier == "thorough" else orders[:1]
                 for order in orders:
-                    yield dag, w, kind, leaves, order, None
+                    yield dag, w, kind, leaves, order, None, None, False
                     if n <= 3 and kind in ("rec", "self"):
                         # the node used first fails to build once (invalid method), is repaired and used again
-                        yield dag, w, kind, leaves, order, order[0]
+                        yield dag, w, kind, leaves, order, order[0], None, False
+                if n <= 3:
+                    # one leaf method registered late, after every node was used: on a node without children
+                    # (plain mixin edges lock used parents), or on any node when the edges are linked
+                    has_child = {p for d in dag for p in d}
+                    for order in (orders if tier != "quick" else orders[:1] + orders[-1:] if n > 1 else orders):
+                        for i in range(n):
+                            for t in leaves[i]:
+                                if i not in has_child:
+                                    yield dag, w, kind, leaves, order, None, (i, t), False
+                                if n > 1:
+                                    yield dag, w, kind, leaves, order, None, (i, t), True
 
 
 def shard(shard, nshards, tier, seed):
     acc = core.Acc(PROP)
-    for idx, (dag, w, kind, leaves, order, fault) in enumerate(cases(tier)):
+    for idx, (dag, w, kind, leaves, order, fault, late, link) in enumerate(cases(tier)):
         if idx % nshards != shard:
             continue
         acc.count("programs")
         acc.h("nodes", len(dag))
-        check(dag, w, kind, leaves, order, acc, fault)
+        acc.h("variant", "late-leaf,linked" if late and link else "late-leaf" if late else "failed-first-use" if fault is not None else "plain")
+        check(dag, w, kind, leaves, order, acc, fault, tuple(late) if late else None, link)
         if idx % (nshards * 97) == shard:
             acc.sample({"dag": [list(d) for d in dag], "walker": [w, kind], "leaves": [list(l) for l in leaves], "order": list(order)})
         if acc.n["programs"] % 50 == 0:
@@ -264,7 +289,8 @@ def shard(shard, nshards, tier, seed):
 
 def replay(case):
     found = check(tuple(tuple(d) for d in case["dag"]), case["walker"][0], case["walker"][1],
-                  tuple(tuple(l) for l in case["leaves"]), tuple(case["order"]), None, case.get("fault"))
+                  tuple(tuple(l) for l in case["leaves"]), tuple(case["order"]), None, case.get("fault"),
+                  tuple(case["late"]) if case.get("late") else None, bool(case.get("link")))
     return [f for f in found if f[1]["node"] == case["node"] and f[1]["input"] == case["input"]]
 
 
@@ -275,7 +301,7 @@ def main(tier):
         PROP, tier, "model_checking", merged, t0,
         rule="all derivation DAGs with <= 4 functions (4 nodes: one first-use order in quick, 12 in thorough; fewer leaf placements) in which each derived function has one copied parent and 0-1 extra "
              "mixins x every placement of one list walker (calling recurse, passing recurse as a value, calling or passing its own function by name) and of int / str leaf methods on "
-             "the nodes x all orders of first use of the nodes (and, for <= 3 nodes, the variant in which the first node used fails to build once on an invalid method, is repaired and used again) x nested inputs, probing every node; oracle: a reference interpreter "
+             "the nodes x all orders of first use of the nodes (and, for <= 3 nodes, the variant in which the first node used fails to build once on an invalid method, is repaired and used again; and the variants in which one plain leaf method is registered only after every node was used - on a node without children, or on any node when the derivation edges are linked) x nested inputs, probing every node; oracle: a reference interpreter "
              "(R5/R6) that re-enters the dispatching node for recurse and the defining node for a self-named walker; result trees "
              "record which node's method handled which element; non-trivial = non-empty list inputs with a defined result",
         assumptions=["reference interpreter R5 / R6 of vt/c08.py"],
